@@ -10,6 +10,11 @@
  * the loop, whose postconditions the harness asserts (exit).  Evaluates to 1, so the loop condition is unchanged. */
 #ifndef VERIF_LOOPRULE_H
 #define VERIF_LOOPRULE_H
+#ifdef BOUNDED_LOOPS
+/* bounded stand-in (kind B): the loops are unwound (--unwind N --unwinding-assertions), no invariant is used */
+#define LOOP_RULE(NAME, seen, var0) 1
+#define LOOP_RULE_PC(NAME, seen) 1
+#else
 #define LOOP_RULE(NAME, seen, var0) ({ \
     if (!(seen)) { (seen) = 1; \
         __CPROVER_assert(INV_##NAME, "LOOP " #NAME ": invariant holds on entry"); \
@@ -21,8 +26,6 @@
         __CPROVER_assert((VARIANT_##NAME) < (var0), "LOOP " #NAME ": variant decreases (termination)"); \
         __CPROVER_assume(0); \
     } 1; })
-#endif
-
 /* partial-correctness variant (no termination claim): for lock-free retry loops and wait loops whose termination
  * depends on other threads */
 #define LOOP_RULE_PC(NAME, seen) ({ \
@@ -34,3 +37,5 @@
         __CPROVER_assert(INV_##NAME, "LOOP " #NAME ": invariant preserved by the loop body"); \
         __CPROVER_assume(0); \
     } 1; })
+#endif /* BOUNDED_LOOPS */
+#endif
